@@ -6,7 +6,7 @@ from collections import Counter
 import numpy as np
 
 from .. import ops, state
-from ..common import CAP, hx, key_family, rand_key, run_cases, sk, unhx
+from ..common import CAP, hx, key_family, pick, rand_key, run_cases, sk, unhx
 
 ID = "C01"
 LEVEL = "exploration"
@@ -204,8 +204,43 @@ def run_exhaustive(case, ctx, mon):
     mon.nontrivial()
 
 
+def run_zipf(case, ctx, mon):
+    """Realistic sizes (the repository's own test regime): Zipf stream over a 1000-key vocabulary split over several
+    sketches, fed through update(list)/update(dict) in batches, merged; both bounds checked for every vocabulary key."""
+    w, d, n_sk = case["width"], case["depth"], case["n"]
+    rng = np.random.default_rng(case["seed"])
+    vocab = list({bytes(rng.integers(0, 256, int(rng.integers(1, 17)), dtype=np.uint8)) for _ in range(case["vocab"])})
+    pz = np.arange(1, len(vocab) + 1, dtype=np.float64) ** -1.1
+    pz /= pz.sum()
+    cfg = {"kind": "linear", "width": w, "depth": d}
+    real = [state.make(cfg) for _ in range(n_sk)]
+    ghost = [Counter() for _ in range(n_sk)]
+    for i in range(n_sk):
+        draws = rng.choice(len(vocab), case["stream"], p=pz).tolist()
+        for b in range(0, len(draws), 500):
+            batch = [vocab[j] for j in draws[b: b + 500]]
+            if (b // 500) % 2:
+                real[i].update(dict(Counter(batch)))
+            else:
+                real[i].update(batch)
+            ghost[i].update(batch)
+    pr = prober(w, d)
+    cells = {k: pr.cells(k) for k in vocab + [b"\xfe-never-added"]}
+    pr.cache.clear()
+    for i in range(1, n_sk):
+        mon.api(real[0].merge, real[i])
+        ghost[0] = ghost[0] + ghost[i]
+    check_all(mon, real[0], ghost[0], vocab + [b"\xfe-never-added"], cells, w, d, "zipf-final")
+    mon.check(int(real[0].n_added()) == sum(ghost[0].values()), "n_added==stream-length", got=int(real[0].n_added()), want=sum(ghost[0].values()))
+    mon.count("zipf_realistic_cases")
+    mon.seen("zipf_width", w)
+    mon.nontrivial(True)
+
+
 def gen_cases(ctx):
     rng = ctx.rng("cases")
+    for w in ([64] if ctx.quick else [pick(rng, [25, 64, 100, 500, 2500])]):
+        yield {"type": "zipf", "width": w, "depth": 8, "n": 3, "vocab": 1000, "stream": 8000 if ctx.quick else 25000, "seed": int(rng.integers(0, 2**31))}
     if ctx.quick or ctx.shard < 4:
         ex = list(gen_exhaustive(rng, ctx))
         if ctx.thorough:
@@ -219,6 +254,8 @@ def gen_cases(ctx):
 def run_case(case, ctx, mon):
     if case["type"] == "history":
         run_history(case, ctx, mon)
+    elif case["type"] == "zipf":
+        run_zipf(case, ctx, mon)
     else:
         run_exhaustive(case, ctx, mon)
 
